@@ -12,7 +12,7 @@
    callbacks, [c_h] the events.  ROutOfFuel / RFault are model-only codes: loop
    fuel exhausted / read outside the post data; the theorems exclude both. *)
 From Coq Require Import List ZArith.
-From MptV Require Import C08.ParseModel C08.ParseSpec C08.ParseBase C08.ParseProofs C08.ParseConfig.
+From MptV Require Import C08.ParseModel C08.ParseSpec C08.ParseBase C08.ParseProofs C08.ParseConfig C08.ParseLinks.
 Import ListNotations.
 Local Open Scope Z_scope.
 
@@ -66,6 +66,13 @@ Theorem C08_no_fault :
   forall fam f a l, c_ret (parse_events fam f a l) <> RFault.
 Proof. exact parse_events_no_fault. Qed.
 
+(* the same for mpt_parse_node; in addition mpt_node_append never has to link a sibling to the
+   temporary root (the current operation an element call notes matches its return code, so the
+   cursor is always at least as deep as the open sections) *)
+Theorem C08_parse_node_no_fault :
+  forall target fmt a l, n_ret (parse_node target fmt a l) <> RFault.
+Proof. exact parse_node_no_fault. Qed.
+
 (* one element call, any state satisfying the invariant: consumption, effect on the path
    elements by return code, invariant kept *)
 Theorem C08_element_call :
@@ -116,4 +123,5 @@ Print Assumptions C08_fail_leaves_target.
 Print Assumptions C08_events_well_nested.
 Print Assumptions C08_events_depth.
 Print Assumptions C08_no_fault.
+Print Assumptions C08_parse_node_no_fault.
 Print Assumptions C08_element_call.
